@@ -177,6 +177,11 @@ def variations(ctx, rr):
             for t in a.targets:
                 if isinstance(t, ast.Name):
                     maybe_none.add(t.id)
+    for f in P.own(lv, ast.For):
+        if isinstance(f.iter, (ast.Tuple, ast.List)) and any(isinstance(e, ast.Name) and e.id in maybe_none for e in f.iter.elts):
+            for t in ast.walk(f.target):
+                if isinstance(t, ast.Name):
+                    maybe_none.add(t.id)
     for x in P.own(lv, ast.Name):
         if x.id in maybe_none and isinstance(x.ctx, ast.Load):
             par = P.parent.get(id(x))
@@ -212,6 +217,30 @@ def variations(ctx, rr):
                 n_anchor += 1
                 rr.ob(ctx.where(hv, t), 'scheme test `%s` is anchored at the start of the LRU' % ast.unparse(t), ok=True)
     rr.require(n_anchor, 2, 'scheme tests/rewrites in https_variation')
+    # the www test / removal concerns the last host stem only
+    host_lists = set()
+    for a in P.own(lv, ast.Assign):
+        if isinstance(a.value, ast.ListComp) and 'startswith' in ast.unparse(a.value) and isinstance(a.targets[0], ast.Name):
+            host_lists.add(a.targets[0].id)
+    n_www = 0
+    for t in ast.walk(lv.node):
+        if isinstance(t, ast.Compare) and any(isinstance(o, (ast.In, ast.NotIn)) for o in t.ops) and any(isinstance(c, ast.Name) and c.id in host_lists for c in t.comparators):
+            n_www += 1
+            rr.ob(ctx.where(lv, t), 'www test `%s` looks at the last host stem only' % ast.unparse(t), ok=False)
+            rr.fail(ctx.finding('R-VARIATIONS', lv, t, 'the www test `%s` matches a www stem anywhere among the hosts: an inner `h:www` stem would be removed and the '
+                                'variation points at another site' % ast.unparse(t)))
+        if isinstance(t, ast.Call) and isinstance(t.func, ast.Attribute) and isinstance(t.func.value, ast.Name) and t.func.value.id in host_lists \
+                and t.func.attr in ('remove', 'index', 'count'):
+            n_www += 1
+            rr.ob(ctx.where(lv, t), 'www removal `%s` concerns the last host stem only' % ast.unparse(t), ok=False)
+            rr.fail(ctx.finding('R-VARIATIONS', lv, t, '`%s` removes/locates the first matching host stem instead of the trailing one' % ast.unparse(t)))
+        if isinstance(t, ast.Compare) and isinstance(t.left, ast.Subscript) and isinstance(t.left.value, ast.Name) and t.left.value.id in host_lists:
+            n_www += 1
+            idx = ast.unparse(t.left.slice)
+            rr.ob(ctx.where(lv, t), 'www test `%s` looks at the last host stem' % ast.unparse(t), ok=idx == '-1')
+            if idx != '-1':
+                rr.fail(ctx.finding('R-VARIATIONS', lv, t, 'the www test looks at host stem [%s], not at the trailing one' % idx))
+    rr.require(n_www, 1, 'www tests in lru_variations')
     # ---- (first) the result list starts with the input and is only appended to
     res = set()
     for r in P.own(lv, ast.Return):
